@@ -300,3 +300,63 @@ func (c *Ctx) RuleN(rule string, in func(*ssa.Function) bool) int {
 	}
 	return n
 }
+
+// ruleNilOnError (N2.onerror): a library function that returns a nil pointer
+// together with a non-nil error must not have that pointer dereferenced on the
+// caller's failure path (to decorate an error message, say): the use has to
+// sit behind the nil-error edge or behind a nil check of the pointer.
+func (c *Ctx) ruleNilOnError(rule string, in func(*ssa.Function) bool) int {
+	nilOnErr := map[*ssa.Function]int{}
+	for _, fn := range c.P.LibFunctions() {
+		sig := fn.Signature
+		if sig.Results().Len() < 2 || !isErrorType(sig.Results().At(sig.Results().Len()-1).Type()) {
+			continue
+		}
+		last := sig.Results().Len() - 1
+		for _, r := range ir.Returns(fn) {
+			if len(r.Results) != sig.Results().Len() || retClass(fn, r) != "fail" {
+				continue
+			}
+			for k := 0; k < last; k++ {
+				if _, isPtr := sig.Results().At(k).Type().Underlying().(*types.Pointer); isPtr && ir.IsNilConst(effectiveResult(fn, r, k)) {
+					nilOnErr[fn] = k
+				}
+			}
+		}
+	}
+	n := 0
+	counts := map[string]int{}
+	for _, fn := range c.P.LibFunctions() {
+		if in != nil && !in(fn) {
+			continue
+		}
+		fn := fn
+		instrsOf(fn, func(i ssa.Instruction) {
+			call, ok := i.(*ssa.Call)
+			if !ok || call.Referrers() == nil {
+				return
+			}
+			callee := ir.Callee(call)
+			k, isOpt := nilOnErr[callee]
+			if callee == nil || !isOpt {
+				return
+			}
+			e, kept := errValue(call)
+			for _, r := range *call.Referrers() {
+				ex, ok := r.(*ssa.Extract)
+				if !ok || ex.Index != k {
+					continue
+				}
+				for _, use := range derefUses(ex) {
+					n++
+					key := ordinalKey(counts, name(fn)+":"+name(callee))
+					construct := strings.TrimPrefix(key, name(fn)+":")
+					safe := kept && e != nil && successDominates(fn, e, use.Block()) || nilGuarded(fn, use, ex, "")
+					c.R.Check(safe, rule, name(fn), construct, c.IPos(use), "a pointer that the callee returns as nil together with an error is dereferenced only behind the nil-error edge (or a nil check)",
+						"the result of "+name(callee)+" is dereferenced at "+c.IPos(use)+" on a path where its error may be non-nil; "+name(callee)+" returns a nil pointer with some of its errors: nil dereference")
+				}
+			}
+		})
+	}
+	return n
+}
